@@ -3,6 +3,7 @@
 mod util;
 mod c04;
 mod c09;
+mod c10;
 mod c14;
 mod c22;
 mod c27;
@@ -20,6 +21,7 @@ fn main() {
     match argv[0].as_str() {
         "c04" => c04::main(&args),
         "c09" => c09::main(&args),
+        "c10" => c10::main(&args),
         "c14" => c14::main(&args),
         "c22" => c22::main(&args),
         "c27" => c27::main(&args),
